@@ -22,8 +22,8 @@ import (
 	"crypto/x509"
 	"crypto/x509/pkix"
 	"errors"
-	"math/big"
 	"fmt"
+	"math/big"
 	"math/rand"
 	"net"
 	"strconv"
@@ -567,6 +567,86 @@ func peerTable(evs []string) string {
 
 // serveUDPBacklog: peer A sends a burst of well-formed non-confirmable requests to a resource whose handler takes
 // slowMs; peer B then sends one request to a fast resource and must be answered within its deadline (1 s).
+// serveUDPWild: a datagram server on the wildcard address with peers that reach it over DIFFERENT local addresses
+// (127.0.0.1 and 127.0.0.2).  Peer A has a request queued behind a slow handler when peer B's datagram arrives at the other
+// local address: A's responses must still come from the address A sent to (its socket is connected: anything else is
+// dropped by the kernel), and B's from B's.
+func serveUDPWild(slowMs int) string {
+	l, err := coapNet.NewListenUDP("udp4", "0.0.0.0:0")
+	if err != nil {
+		return "rig-error listen"
+	}
+	defer l.Close()
+	r := mux.NewRouter()
+	_ = r.Handle("/slow", mux.HandlerFunc(func(w mux.ResponseWriter, req *mux.Message) {
+		select {
+		case <-time.After(time.Duration(slowMs) * time.Millisecond):
+		case <-w.Conn().Context().Done():
+		}
+		_ = w.SetResponse(codes.Content, message.TextPlain, bytes.NewReader([]byte("slow")))
+	}))
+	_ = r.Handle("/echo", mux.HandlerFunc(func(w mux.ResponseWriter, req *mux.Message) {
+		body, _ := req.ReadBody()
+		_ = w.SetResponse(codes.Content, message.TextPlain, bytes.NewReader(body))
+	}))
+	s := udp.NewServer(options.WithMux(r), options.WithErrors(func(error) {}))
+	served := make(chan error, 1)
+	go func() { served <- s.Serve(l) }()
+	port := l.LocalAddr().(*net.UDPAddr).Port
+	time.Sleep(30 * time.Millisecond)
+	a, err := net.DialUDP("udp4", nil, &net.UDPAddr{IP: net.IPv4(127, 0, 0, 1), Port: port})
+	if err != nil {
+		return "rig-error dial"
+	}
+	defer a.Close()
+	b, err := net.DialUDP("udp4", nil, &net.UDPAddr{IP: net.IPv4(127, 0, 0, 2), Port: port})
+	if err != nil {
+		return "rig-error dial-second-address"
+	}
+	defer b.Close()
+	send := func(c *net.UDPConn, path string, tok byte, mid int32) {
+		m := pool.NewMessage(context.Background())
+		m.SetCode(codes.GET)
+		m.SetToken(message.Token{tok})
+		_ = m.SetPath(path)
+		m.SetType(message.NonConfirmable)
+		m.SetMessageID(mid)
+		bs, _ := m.MarshalWithEncoder(udpcoder.DefaultCoder)
+		_, _ = c.Write(bs)
+	}
+	count := func(c *net.UDPConn, want int, wait time.Duration) int {
+		got := 0
+		buf := make([]byte, 2048)
+		deadline := time.Now().Add(wait)
+		for got < want {
+			_ = c.SetReadDeadline(deadline)
+			n, err := c.Read(buf)
+			if err != nil {
+				break
+			}
+			m := pool.NewMessage(context.Background())
+			if _, err := m.UnmarshalWithDecoder(udpcoder.DefaultCoder, buf[:n]); err == nil && m.Code() == codes.Content {
+				got++
+			}
+		}
+		return got
+	}
+	send(a, "/slow", 0xA1, 2001) // in the handler
+	send(a, "/slow", 0xA2, 2002) // queued behind it
+	time.Sleep(time.Duration(slowMs/3) * time.Millisecond)
+	send(b, "/echo", 0xB1, 3001) // arrives at the other local address meanwhile
+	gb := count(b, 1, time.Second)
+	ga := count(a, 2, time.Duration(3*slowMs)*time.Millisecond+time.Second)
+	s.Stop()
+	serving := 0
+	select {
+	case <-served:
+		serving = 1
+	case <-time.After(2 * time.Second):
+	}
+	return fmt.Sprintf("wild a %d/2 b %d/1 stopped %d", ga, gb, serving)
+}
+
 func serveUDPBacklog(slowMs, burst int) string {
 	l, err := coapNet.NewListenUDP("udp4", "127.0.0.1:0")
 	if err != nil {
@@ -1227,7 +1307,9 @@ func TestC10(t *testing.T) {
 			good, _ := strconv.Atoi(f[3])
 			bad, _ := strconv.Atoi(f[4])
 			msgs, _ := strconv.Atoi(f[5])
-			if f[1] == "udpbacklog" {
+			if f[1] == "udpwild" {
+				fmt.Fprintln(w, serveUDPWild(good)) // serve udpwild <seed> <slowMs> <unused> <unused>
+			} else if f[1] == "udpbacklog" {
 				fmt.Fprintln(w, serveUDPBacklog(good, bad)) // serve udpbacklog <seed> <slowMs> <burst> <unused>
 			} else if f[1] == "udp" {
 				fmt.Fprintln(w, serveUDP(seed, good, bad, msgs))
